@@ -47,7 +47,10 @@ def gen_cases(rng, tier):
     groute = "api" if route.startswith("api") else "potable"
     kind = rng.choice(["eam", "fs"])
     model = spec.gen_eam_model(rng, kind, groute, target="DL_POLY_EAM" if kind == "eam" else "DL_POLY_EAM_fs")
-    cases.append({"route": route, "model": model, "style": rng.randrange(1 << 30)})
+    huge = None
+    if i % 8 == 3:
+      huge = spec.make_huge(rng, model)
+    cases.append({"route": route, "model": model, "style": rng.randrange(1 << 30), "huge": huge})
   return cases
 
 
@@ -81,6 +84,8 @@ def run_case(case, ctx):
   potable = not route.startswith("api")
   rng = random.Random(case["style"])
   ctx.cls("route:" + route)
+  if case.get("huge"):
+    ctx.cls("huge_values_1e45_1e80:" + case["huge"])
   ctx.cls("target:" + model["target"])
   ref = eamref.EamRef(model, potable)
   order = ref.order
@@ -162,7 +167,7 @@ def run_case(case, ctx):
     if float(b["start_tok"]) != 0.0:
       ctx.violation("header_start", "%s: start %s" % (where, b["start_tok"]), what="header_start")
     oracle.check_token(ctx, "header_end", b["end_tok"], R.F(step * (npts - 1)), 0, rel=1e-12, where=where)
-    eamref.check_series(ctx, "value_" + kw, b["values"], orc, step, idx, where)
+    eamref.check_series(ctx, "value_" + kw, b["values"], orc, step, idx, where, fmt="tabeam")
     nz = nz or any(float(t) != 0.0 for t in b["values"])
   for key, cnt in want.items():
     if cnt != 1:
